@@ -450,6 +450,17 @@ theorem commit_add (p q r : PriPoly F) (h : priAdd p q = .ok r) (b : G) :
   subst h
   simp [pubAdd, commit, hg, hl, add_smul]
 
+/-- `PubPoly.Add` keeps the RECEIVER's base and group tag and adds commitment by commitment, also when the
+argument was committed under another base (the sum is then not a commitment of `p + q` under any single
+base: callers add polynomials committed under one base, as `commit_add` states) -/
+theorem pubAdd_base (p q r : PubPoly G) (h : pubAdd p q = .ok r) :
+    r.base = p.base ∧ r.g = p.g ∧ r.commits = List.zipWith (· + ·) p.commits q.commits := by
+  unfold pubAdd at h
+  by_cases hg : p.g = q.g <;> by_cases hl : p.commits.length = q.commits.length <;>
+    simp [hg, hl] at h
+  subst h
+  exact ⟨rfl, hg.symm, rfl⟩
+
 /-! ### 3. evaluation points -/
 
 /-- **no share index evaluates the polynomial at zero** (so no single share is `f(0)`), and
@@ -632,6 +643,10 @@ example : pubEqual (P := Zq 7) ⟨0, 1, [3, 2]⟩ ⟨0, 1, [3, 2, 5]⟩ = false
     ∧ pubEqual (P := Zq 7) ⟨0, 1, [3, 2, 5]⟩ ⟨0, 4, [3, 2, 5]⟩ = true := by decide
 
 example : CharGt (Zq 7) 5 := zq_charGt 7 5 (by decide)
+
+example : pubAdd (P := Zq 7) ⟨0, 4, [3, 2]⟩ ⟨0, 5, [6, 6]⟩ = .ok ⟨0, 4, [2, 1]⟩ := by decide
+example : (⟨0, 4, [2, 1]⟩ : PubPoly (Zq 7)).base = (⟨0, 4, [3, 2]⟩ : PubPoly (Zq 7)).base :=
+  (pubAdd_base (G := Zq 7) ⟨0, 4, [3, 2]⟩ ⟨0, 5, [6, 6]⟩ _ (by decide)).1
 
 /-- a history whose two index sequences (1,12) and (11,2) concatenate to the same digits: the second call
 answers what it answers alone (and so does the first, in either order of the calls) -/
